@@ -314,7 +314,11 @@ fn main() {
             let lerped_norm = { let l = [a.x + f * (b.x - a.x), a.y + f * (b.y - a.y), a.z + f * (b.z - a.z), a.w + f * (b.w - a.w)]; (l[0] * l[0] + l[1] * l[1] + l[2] * l[2] + l[3] * l[3]).sqrt() };
             if lerped_norm > 0.05 {
                 for (name, r) in [("Lerp::lerp_unclamped", <Quaternion<f64> as Lerp<f64>>::lerp_unclamped(a, b, f)), ("Lerp::lerp_unclamped_precise", <Quaternion<f64> as Lerp<f64>>::lerp_unclamped_precise(a, b, f)),
-                                  ("&Lerp::lerp_unclamped", <&Quaternion<f64> as Lerp<f64>>::lerp_unclamped(&a, &b, f)), ("Lerp::lerp", <Quaternion<f64> as Lerp<f64>>::lerp(a, b, f))] {
+                                  ("&Lerp::lerp_unclamped", <&Quaternion<f64> as Lerp<f64>>::lerp_unclamped(&a, &b, f)), ("Lerp::lerp", <Quaternion<f64> as Lerp<f64>>::lerp(a, b, f)),
+                                  ("&Lerp::lerp_unclamped_precise", <&Quaternion<f64> as Lerp<f64>>::lerp_unclamped_precise(&a, &b, f)), ("&Lerp::lerp", <&Quaternion<f64> as Lerp<f64>>::lerp(&a, &b, f)),
+                                  ("Lerp::lerp_precise", <Quaternion<f64> as Lerp<f64>>::lerp_precise(a, b, f)), ("&Lerp::lerp_precise", <&Quaternion<f64> as Lerp<f64>>::lerp_precise(&a, &b, f)),
+                                  ("Quaternion::lerp_unclamped", Quaternion::lerp_unclamped(a, b, f)), ("Quaternion::lerp_unclamped_precise", Quaternion::lerp_unclamped_precise(a, b, f)),
+                                  ("Quaternion::lerp", Quaternion::lerp(a, b, f)), ("Quaternion::lerp_precise", Quaternion::lerp_precise(a, b, f))] {
                     if (norm(r) - 1.0).abs() > 64.0 * f64::EPSILON { s.violation(&format!("{} for Quaternion<f64>", name), "not-unit", json!({"input": inp(), "norm": norm(r)})); }
                 }
             }
@@ -422,6 +426,18 @@ fn main() {
             if n.progress != 0.0 || n.into_current() != 2.0 { s.violation("LinearTransition::new", "does-not-start-at-start", json!({})); }
             let w = Transition::<f32, ProgressMapperFn<f32>, f32>::with_mapper(2.0, -6.0, ProgressMapperFn(sq));
             if w.progress != 0.0 || w.start != 2.0 || w.end != -6.0 { s.violation("Transition::with_mapper", "wrong-fields", json!({})); }
+            // the mapper objects themselves: identity maps every progress to itself, the function wrapper applies its function
+            s.evals(3, 3);
+            if vek::ProgressMapper::<f32>::map_progress(&vek::IdentityProgressMapper, p) != p { s.violation("IdentityProgressMapper::map_progress", "not-the-identity", json!({"progress": p})); }
+            if vek::ProgressMapper::<f32>::map_progress(&ProgressMapperFn(sq as fn(f32) -> f32), p) != sq(p) || vek::ProgressMapper::<f32>::map_progress(&ProgressMapperFn(inv as fn(f32) -> f32), p) != inv(p) { s.violation("ProgressMapperFn::map_progress", "not-the-wrapped-function", json!({"progress": p})); }
+            // every accessor of a linear transition (identity mapper)
+            for (name, got, want) in [("into_current", lt.into_current(), <f32 as Lerp<f32>>::lerp(2.0, -6.0, p)), ("into_current_precise", lt.into_current_precise(), <f32 as Lerp<f32>>::lerp_precise(2.0, -6.0, p)),
+                ("into_current_unclamped_precise", lt.into_current_unclamped_precise(), <f32 as Lerp<f32>>::lerp_unclamped_precise(2.0, -6.0, p)), ("current", lt.current(), <f32 as Lerp<f32>>::lerp(2.0, -6.0, p)),
+                ("current_unclamped", lt.current_unclamped(), <f32 as Lerp<f32>>::lerp_unclamped(2.0, -6.0, p)), ("current_precise", lt.current_precise(), <f32 as Lerp<f32>>::lerp_precise(2.0, -6.0, p)),
+                ("current_unclamped_precise", lt.current_unclamped_precise(), <f32 as Lerp<f32>>::lerp_unclamped_precise(2.0, -6.0, p))] {
+                s.evals(1, 1);
+                if got != want { s.violation(&format!("LinearTransition::{}", name), "not-the-lerp-at-progress", json!({"progress": p, "got": got, "want": want})); }
+            }
             let fr: LinearTransition<f32, f32> = (2.0f32..-6.0f32).into();
             if fr.start != 2.0 || fr.end != -6.0 || fr.progress != 0.0 { s.violation("Transition::from(Range)", "wrong-fields", json!({})); }
         }
